@@ -34,6 +34,17 @@ var QuickTimeout = 20 * time.Second
 type Job struct {
 	Fn   *ssa.Function
 	Spec *sym.FnSpec
+	// Bounded: the job verifies an instance with a fixed number of list elements (a bounded stand-in for the
+	// function-level statement); its obligations are counted separately in the evidence.
+	Bounded bool
+}
+
+// MarkBounded flags jobs as bounded instances.
+func MarkBounded(jobs []Job) []Job {
+	for i := range jobs {
+		jobs[i].Bounded = true
+	}
+	return jobs
 }
 
 // RunJobs verifies all jobs in parallel and discharges their obligations.
@@ -72,6 +83,13 @@ func RunJobs(w *core.World, rep *core.Report, jobs []Job) {
 			rep.Aborted[name] = "no return path reached (vacuous verification)"
 		}
 		obls = append(obls, fx.Obls...)
+		for _, o := range fx.Obls {
+			if jobs[i].Bounded {
+				rep.BoundedObls[o.Name] = true
+			} else {
+				rep.GeneralObls[o.Name] = true
+			}
+		}
 		for k := range fx.Trusted {
 			trusted[k] = true
 		}
